@@ -544,9 +544,20 @@ func (P *Prog) expandBoolCalls(conds []Fact, depth int) [][]Fact {
 // This is what makes a rule indifferent to a block having been extracted
 // into a helper. Helpers with many paths are not expanded.
 func (P *Prog) expandConds(conds []Fact, depth int) [][]Fact {
+	return P.expandCondsF(conds, depth, nil)
+}
+
+// expandCondsF: expandConds leaving calls of the functions `keep` accepts as
+// they are (rule vocabulary such as the label normaliser or value predicates).
+func (P *Prog) expandCondsF(conds []Fact, depth int, keep func(*ssa.Function) bool) [][]Fact {
 	alts := [][]Fact{{}}
 	for ci, c := range conds {
-		sub := P.expandOne(c, depth)
+		var sub [][]Fact
+		if keep != nil && condCallee(P, c) != nil && keep(condCallee(P, c)) {
+			sub = [][]Fact{{c}}
+		} else {
+			sub = P.expandOneF(c, depth, keep)
+		}
 		var next [][]Fact
 		for _, a := range alts {
 			for _, s := range sub {
@@ -565,7 +576,34 @@ func (P *Prog) expandConds(conds []Fact, depth int) [][]Fact {
 	return alts
 }
 
-func (P *Prog) expandOne(c Fact, depth int) [][]Fact {
+// condCallee: the in-package function whose result condition c tests.
+func condCallee(P *Prog, c Fact) *ssa.Function {
+	t := c.Pred
+	switch {
+	case t.Op == "call":
+		return P.calleeOfTerm(t)
+	case t.Op == "res" && len(t.Args) == 1 && t.Args[0].Op == "call":
+		return P.calleeOfTerm(t.Args[0])
+	case t.Op == "binop" && t.S == "==" && len(t.Args) == 2:
+		for i := 0; i < 2; i++ {
+			if t.Args[i].Op != "nil" {
+				continue
+			}
+			o := t.Args[1-i]
+			if o.Op == "call" {
+				return P.calleeOfTerm(o)
+			}
+			if o.Op == "res" && len(o.Args) == 1 && o.Args[0].Op == "call" {
+				return P.calleeOfTerm(o.Args[0])
+			}
+		}
+	}
+	return nil
+}
+
+func (P *Prog) expandOne(c Fact, depth int) [][]Fact { return P.expandOneF(c, depth, nil) }
+
+func (P *Prog) expandOneF(c Fact, depth int, keepF func(*ssa.Function) bool) [][]Fact {
 	keep := [][]Fact{{c}}
 	if depth > 2 {
 		return keep
@@ -667,7 +705,7 @@ func (P *Prog) expandOne(c Fact, depth int) [][]Fact {
 				}
 			}
 		}
-		for _, e := range P.expandConds(set, depth+1) {
+		for _, e := range P.expandCondsF(set, depth+1, keepF) {
 			out = append(out, append([]Fact{c}, e...))
 		}
 		if len(out) > 256 {
